@@ -553,6 +553,10 @@ func (ac *assertChecker) indexOfTypeSummary(v ssa.Value, T types.Type, facts []F
 		}
 	}
 	if !okNe {
+		// any arithmetic form of the same exclusion (idx >= 0, idx > -1, -1 < idx, ...)
+		okNe = a.ProveValLE(a.lin(call).scale(-1), 0, pointOf(ld))
+	}
+	if !okNe {
 		return ""
 	}
 	// summary of G
